@@ -59,6 +59,50 @@ Theorem C04_round_le_current_is_timely : forall now p g r,
 Proof. intros now p g r. exact (round_le_current_timely time_buffer_bits now p g r eq_refl). Qed.
 Print Assumptions C04_round_le_current_is_timely.
 
+(* Once genesis has passed on the node's own clock, "at most the current round" IS "the round's
+   time has come": every partial released by a step taken at a clock reading n >= genesis is for a
+   round whose scheduled time is at or before n. *)
+Theorem C04_emission_time_has_come :
+  forall (C : cfg) idx_of vpart recov vrec own_psig s e s' o,
+    step C idx_of vpart recov vrec own_psig s e = (s', o) ->
+    forall r p sg n, In (OEmit r p sg n) o -> 1 <= r ->
+      dom_p (c_period C) -> dom_g (c_genesis C) -> dom_t (c_genesis C) n ->
+      time_of_round time_buffer_bits (c_period C) (c_genesis C) r <= n.
+Proof.
+  intros C idx_of vpart recov vrec own_psig s e s' o Hs r p sg n Hin Hr Hp Hg Ht.
+  apply C04_round_le_current_is_timely; try assumption. split; [exact Hr|].
+  exact (C04_step_never_early C idx_of vpart recov vrec own_psig s e s' o Hs r p sg n Hin).
+Qed.
+Print Assumptions C04_emission_time_has_come.
+
+(* Before genesis nothing is signed because no tick reaches the handler: Model/Ticker.v
+   (internal/chain/beacon/ticker.go).  A tick is stamped with a reading of the node's own clock
+   and goes only to channels whose start time is not after the stamp; the handler registers its
+   channel at genesis (Start) or at the time of the next round (Catchup).  For EVERY run of the
+   ticker -- the clock may stall or jump forward, the timers that wake the ticker need not be in
+   step with it, ticks may be consumed late -- a tick delivered to the handler carries a time
+   between genesis and the clock reading at delivery, its round is the current round of that
+   time, and that round's scheduled time is not after the clock.  (Tied to the real ticker by the
+   ticker engine: hook VerifTickerAt, fake clock whose wall time can stall while its timers run.) *)
+From DV Require Import Model.Ticker Proofs.TickerProofs.
+Theorem C04_handler_ticks_timely : forall p g es s s' out,
+  dom_p p -> dom_g g ->
+  krun p g s es = (s', out) -> chans_ok (fun a => g <= a) s es ->
+  forall d now, In (d, now) out -> now - g <= 2 ^ 50 ->
+    g <= tk_time d /\ tk_time d <= now /\ 1 <= tk_round d /\
+    time_of_round time_buffer_bits p g (tk_round d) <= now.
+Proof. exact handler_ticks_timely. Qed.
+Print Assumptions C04_handler_ticks_timely.
+
+(* non-vacuity: period 3, genesis 1000, the handler's channel starts at genesis.  The timer armed
+   for genesis fires while the node's clock, which stalled for 2 s, still reads 998: nothing is
+   delivered.  The next tick is consumed at 1001 and announces round 1; a tick stamped 1004 and
+   consumed late, at 1009, announces round 2 with its own stamp. *)
+Example C04_ticker_nonvacuous :
+  snd (krun 3 1000 (mkTk 990 [1000]) [KClock 998; KFire 1000; KClock 1001; KFire 1001; KClock 1009; KFire 1004])
+  = [(mkTick 0 1 1001, 1001); (mkTick 0 2 1004, 1009)].
+Proof. vm_compute. reflexivity. Qed.
+
 (* System level: with FEWER than a threshold of corrupted or fast-clocked members (the set F), in
    every reachable state of the abstract network (any schedule of clock advances, adversarial
    partials for any round at any time, honest partials signed under the node-local rule proved
